@@ -259,14 +259,8 @@ func TestRace(t *testing.T) {
 			os.Exit(2)
 		}
 		layouts[L.name] = L
-		// the solo outcome: sequential, nothing else running
-		p := &prng{x: seed}
-		solo[L.name] = loadOnce(L, p, false)
-		if solo[L.name].ok {
-			res.Counters["solo-ok"]++
-		} else {
-			res.Counters["solo-err"]++
-		}
+		// NOTE: the solo outcomes are computed after the concurrent groups (see below): loading every layout
+		// once up front would warm any lazily initialised process-level state and hide first-use races
 	}
 	names := make([]string, 0, len(layouts))
 	for n := range layouts {
@@ -284,6 +278,12 @@ func TestRace(t *testing.T) {
 		return st.Size()
 	}
 	nt := map[string]bool{}
+	type pendingCmp struct {
+		g    Group
+		idx  int
+		outs []outcome
+	}
+	var pending []pendingCmp
 	master := &prng{x: seed*1000003 + uint64(worker)*7919}
 	var runGroup func(g Group, idx int)
 	runGroup = func(g Group, idx int) {
@@ -314,15 +314,7 @@ func TestRace(t *testing.T) {
 			}
 			close(gate)
 			wg.Wait()
-			for i, o := range outs {
-				s := solo[g.Layouts[i]]
-				if o.ok != s.ok || o.hash != s.hash {
-					sc, _ := json.Marshal(g)
-					res.Violations = append(res.Violations, Violation{Property: "C19", Clause: "result-differs-from-solo", Key: "concurrent-load-result-differs-from-solo",
-						Detail: fmt.Sprintf("layout %s: alone ok=%v hash=%s err=%q; in a group of %d: ok=%v hash=%s err=%q", g.Layouts[i], s.ok, s.hash, s.err, len(outs), o.ok, o.hash, o.err),
-						Engine: "race", RunIndex: idx, RunSeed: g.Seed, Scenario: sc})
-				}
-			}
+			pending = append(pending, pendingCmp{g: g, idx: idx, outs: outs})
 			res.Counters["concurrent-loads"] += len(outs)
 		case "transform":
 			p := project(g.N)
@@ -382,7 +374,33 @@ func TestRace(t *testing.T) {
 			res.Counters["groups-with-race-reports"]++
 		}
 	}
+	// second oracle, evaluated once the groups are done: every concurrent result equals the solo result
+	compareWithSolo := func() {
+		for _, pc := range pending {
+			for i, o := range pc.outs {
+				name := pc.g.Layouts[i]
+				s, ok := solo[name]
+				if !ok {
+					s = loadOnce(layouts[name], &prng{x: seed}, false)
+					solo[name] = s
+					if s.ok {
+						res.Counters["solo-ok"]++
+					} else {
+						res.Counters["solo-err"]++
+					}
+				}
+				if o.ok != s.ok || o.hash != s.hash {
+					sc, _ := json.Marshal(pc.g)
+					res.Violations = append(res.Violations, Violation{Property: "C19", Clause: "result-differs-from-solo", Key: "concurrent-load-result-differs-from-solo",
+						Detail: fmt.Sprintf("layout %s: alone ok=%v hash=%s err=%q; in a group of %d: ok=%v hash=%s err=%q", name, s.ok, s.hash, s.err, len(pc.outs), o.ok, o.hash, o.err),
+						Engine: "race", RunIndex: pc.idx, RunSeed: pc.g.Seed, Scenario: sc})
+				}
+			}
+		}
+		pending = nil
+	}
 	flush := func() {
+		compareWithSolo()
 		for k := range nt {
 			res.Nontrivial = append(res.Nontrivial, k)
 		}
@@ -416,6 +434,7 @@ func TestRace(t *testing.T) {
 		tries := envInt("VERIF_REPLAY_TRIES", 20)
 		for i := 0; i < tries; i++ {
 			runGroup(*replay, i)
+			compareWithSolo()
 			if len(res.Groups) > 0 || len(res.Violations) > 0 {
 				break
 			}
